@@ -1,4 +1,75 @@
-"""B-units: unit headers, abbreviation tables, DIE readers (DESIGN.md 6 C02 / C20 / C01 / C10).  WORK IN PROGRESS
+"""B-units: unit headers, abbreviation tables, DIE readers  (DESIGN.md 6 C02, C20 entry-buffer / re-rooting clauses; C01, C10).
+
+Sources: /repo/src/read/unit.rs, /repo/src/read/abbrev.rs (+ `SectionId` from common.rs, `Expression` from read/op.rs).
+Spec functions (written from DWARF 5 section 7.5.1 / 7.5.2 / 7.5.3, not from the code): vx/specs/units.rs.
+
+FUNCTIONS UNDER CONTRACT (verified with their real bodies unless marked)
+  unit headers    parse_unit_header  (layout table 7.5.1: versions 2-4 / 5, every DW_UT_*, 32/64-bit; `entries_buf` = rest of unit)
+                  UnitHeader::{new, section, offset, size_of_header, unit_length, length_including_self, encoding, version, type_,
+                  debug_abbrev_offset, address_size, format, header_size, root_offset, is_in_bounds, range, range_from, range_to,
+                  entries, entries_at_offset};  representation invariant `wf()`: hdr_size() + entries_buf.len == il + unit_length
+                  DebugInfo::{units, header_from_offset}, DebugTypes::units, Debug{Info,Types}UnitHeadersIter::next (iterator protocol)
+  abbreviations   AttributeSpecification::{new, name, form, implicit_const_value, parse}, Attributes::{new, push}, Deref for Attributes,
+                  Abbreviation::{new, code, tag, has_children, attributes, parse_tag, parse_has_children, parse_attributes, parse},
+                  Abbreviations::{empty, insert, get, parse} against the abstract view `IMap<u64, Abbreviation>` (vstd's `Map` is
+                  finite-only in this Verus; `IMap` is the classical map) with the representation invariant of DESIGN C02;
+                  `parse` against the table as a function of the bytes (decl_start/decl_code/.., duplicates rejected)
+  entries         DebuggingInformationEntry::{new, null, is_null, set_null, depth, offset, tag, has_children, attrs, attr_value, sibling},
+                  Attribute::{name, form, raw_value},
+                  EntriesRaw::{new, empty, is_empty, seek_forward, next_offset, next_depth, read_entry, read_abbreviation, read_attribute,
+                  read_attribute_inline, read_attributes, skip_attributes}   (step relation `die_step`)
+  navigation      EntriesCursor::{new, current, offset, depth, next_offset, next_depth, next_entry, next_dfs, next_sibling},
+                  EntriesTree::{new, root, next}, EntriesTreeNode::{new, entry, children}, EntriesTreeIter::{new, next}
+
+REWRITES BEYOND THE STANDARD RULES (all logged in the evidence)
+  R-OFFSET  the `<R, Offset> where R: Reader<Offset = Offset>, Offset: ReaderOffset` shape is specialised to `Offset = usize`
+            (impl/fn header only; a module alias `type Offset = usize` keeps the bodies verbatim).
+  R-CTORFN  `.map(DebugAbbrevOffset)` etc.: a tuple-struct constructor used as a function value is eta-expanded to a closure with a
+            verified `ensures` (Verus has no function values for constructors).
+  R-ORD     `assert!(idx.start <= idx.end)` -> compares the `.0` fields (derived PartialOrd of a one-field tuple struct; derive dropped).
+  R-ENTRY   `match self.map.entry(k) { Occupied(_) => Err(()), Vacant(e) => { e.insert(v); Ok(()) } }` ->
+            `if self.map.contains_key(&k) { Err(()) } else { self.map.insert(k, v); Ok(()) }`: the documented meaning of the std Entry API.
+            The hidden `&mut` inside the Entry types cannot be specified (DESIGN P20); with the rewrite the whole body of
+            `Abbreviations::insert` (dense/sparse split, `code_usize - 1`) is verified instead of being R-EXTBODY.  ASSUMPTION A-ENTRY.
+  R-IMPL    `impl Deref for Attributes` is verified verbatim as an impl of the local trait `DerefImpl` (same signature plus the
+            precondition `inv()`, which a `core::ops::Deref` impl cannot carry); the `Deref` impl that auto-deref needs is an R-STUB
+            delegating to it.
+  R-ATTR    derive(Debug/PartialEq/Eq/Default) removed from Abbreviation, Abbreviations, EntriesRaw, EntriesCursor, EntriesTree(+Node/Iter)
+            (they go through hand-written `Debug`/`PartialEq` impls on `Attributes` that are not extracted).
+  Structural  `dw!` newtypes DwChildren/DwTag/DwAt/DwForm get `derive(Structural)` (exec `==` gets its spec meaning; checked by Verus);
+            their one-line struct definitions move to the crate root because Verus 0.2026.09.13 crashes on derive(Structural) in a
+            nested module.
+
+ASSUMED (TRUSTED; each is outside Verus' subset or owned by another batch)
+  core.TRUSTED                       reader layer (see B-core)
+  `<[T]>::to_vec` ('<[T')            std: a copy of the slice (used by Attributes::push when spilling to the heap)
+  Deref for Attributes::deref        R-STUB: "under inv() the result is the view"; the real body is verified as DerefImpl::deref
+  parse_attribute, skip_attributes   batch `attrs` (C03).  Assumed here: `within(old, final)`; parse_attribute returns the spec's name and form
+  Attribute::value                   batch `attrs` (600-line normalisation); no contract
+  DebuggingInformationEntry::attr    `iter().find(closure)`; no contract (so `sibling` is proved for *any* attribute lookup result)
+  vstd's BTreeMap model              `new/is_empty/contains_key/get/insert` on `BTreeMap<u64, V>` with view `Map<u64, V>` (vstd std_specs)
+  A-ENTRY                            see R-ENTRY
+  LENFITS                            `rv().len <= usize::MAX` (parse_unit_header, header_from_offset) and `<= isize::MAX` (EntriesRaw::new,
+                                     UnitHeader::entries*): true of every reader (a Rust allocation has at most isize::MAX bytes) but the
+                                     core layer exposes it only through a call of `len()`; stated as preconditions, discharged by callers that
+                                     do call `len()` (the unit header iterators).  Suggested core.py change: a trait-level axiom.
+
+NOT DECIDED
+  * "errors *only* for unknown version / unit type / address size / short length" (no spurious error): core's contracts of
+    read_initial_length / read_address_size / read_word are one-directional (Ok => value), so only `Ok ==> well-formed header` is proved.
+  * whole-forest equality of the five traversal styles (DESIGN C02 ND): step contracts only.  next_sibling: same depth, forward only,
+    stable at the end of a sibling list; *not* "skips only deeper entries" (needs a reader/entry coherence invariant that the end-of-input
+    path of next_entry breaks).  Validity of DW_AT_sibling targets is an input assumption.
+  * UnitHeader::{entry, entries_tree, entries_raw} (closure `unwrap_or_else(|| self.root_offset())`), the UnitOffset/DebugInfoOffset
+    conversion helpers, AbbreviationsCache, DebugAbbrev::abbreviations, FallibleIterator/Iterator adaptor impls: not extracted.
+  * attribute *values* (C03, batch attrs).  Reader positions on EndianSlice (Kani K-ESLICE).
+
+FINDINGS
+  F-units-1 (C01)  EntriesRaw::new: documented "`offset` may be any value", computes `offset.0 + input.len()` unchecked -> debug-build
+                   panic / release wrap (native/src/bin/f_units_1.rs).  This is the one obligation that fails on the pinned tree.
+  observation      EntriesCursor::next_sibling doc: "The depth of the cursor is never changed if this method returns Ok"; on a unit
+                   truncated inside a child list it returns Ok(None) with depth() of the last deeper entry (clause stated conditionally).
+  observation      UnitHeader::range panics (assert!) for start > end: undocumented; stated as `requires [C02:range-ordered]`.
 """
 import re
 from lib import *
@@ -247,7 +318,7 @@ use crate::constants;
 use crate::read::{Error, Reader, ReaderOffset, Result};
 use crate::read::reader_clone;
 use crate::vspec::*;
-use crate::read::unit::{ASpec, aspec_at, aspec_size, aspec_end_marker, aspecs, aspecs_size, lemma_aspecs_shift};""")
+use crate::read::unit::{ASpec, aspec_at, aspec_size, aspec_end_marker, aspecs, aspecs_size, lemma_aspecs_shift, decl_size, decl_start, decl_code, decl_tag, decl_children, decl_specs, table_ends, advanced};""")
     sk.add('read::abbrev', ABBREV_PRELUDE, label='abbrev-prelude')
     O, F = 'old(input).rv()', 'final(input).rv()'
     FRAME = f'[C01:frame] within({O}, {F})'
@@ -378,23 +449,38 @@ mod deref_stub {
     }
     /// representation invariant (DESIGN C02): dense vector for codes 1..=len, map for the rest, every declaration stored under its own code
     pub closed spec fn inv(&self) -> bool {
-        &&& forall|i: int| 0 <= i < self.vec@.len() ==> (#[trigger] self.vec@[i]).g_code() == i + 1 && self.vec@[i].wf()
-        &&& forall|k: u64| #[trigger] self.map@.contains_key(k) ==> k > self.vec@.len() && self.map@[k].g_code() == k && self.map@[k].wf()
+        &&& forall|i: int| 0 <= i < self.vec@.len() ==> (#[trigger] self.vec@[i]).g_code() == i + 1 && self.vec@[i].wf() && self.vec@[i].g_tag() != 0
+        &&& forall|k: u64| #[trigger] self.map@.contains_key(k) ==> k > self.vec@.len() && self.map@[k].g_code() == k && self.map@[k].wf() && self.map@[k].g_tag() != 0
     }""")
     abs_.splice('empty', ret='res', ensures=['[C02:abbrevs-empty] res.inv() && res.view() =~= IMap::<u64, Abbreviation>::empty()'])
-    abs_.splice('insert', ret='res', requires=['[C02:abbrevs-inv] old(self).inv()', '[C02:abbrev-code-nonzero] abbrev.g_code() != 0', 'abbrev.wf()'], canary=True, ensures=[
+    abs_.splice('insert', ret='res', requires=['[C02:abbrevs-inv] old(self).inv()', '[C02:abbrev-code-nonzero] abbrev.g_code() != 0', 'abbrev.wf()', '[C02:abbrev-tag-nonzero] abbrev.g_tag() != 0'], canary=True, ensures=[
         '[C02:abbrevs-inv] final(self).inv()',
         '[C02:abbrevs-insert-dup] res is Err <==> old(self).view().contains_key(abbrev.g_code())',
         '[C02:abbrevs-insert] res is Ok ==> final(self).view() =~= old(self).view().insert(abbrev.g_code(), abbrev)',
         '[C02:abbrevs-insert-dup] res is Err ==> final(self).view() =~= old(self).view()'])
     abs_.splice('get', ret='res', requires=['[C02:abbrevs-inv] self.inv()'], canary=True, ensures=[
-        '[C02:abbrevs-get] res matches Some(a) ==> self.view().contains_key(code) && *a == self.view()[code] && a.g_code() == code && a.wf()',
+        '[C02:abbrevs-get] res matches Some(a) ==> self.view().contains_key(code) && *a == self.view()[code] && a.g_code() == code && a.wf() && a.g_tag() != 0',
         '[C02:abbrevs-get] res is None ==> !self.view().contains_key(code)',
         '[C02:abbrevs-get] self.view().contains_key(0) == false'])
+    # the table as a function of the bytes: the i-th declaration is stored under its code, nothing else is stored, codes are distinct
+    HOLDS = ('(forall|i: nat| #![trigger decl_code({v}, i)] i < {n} ==> decl_code({v}, i) != 0 && {a}.view().contains_key(decl_code({v}, i) as u64) '
+             '&& {a}.view()[decl_code({v}, i) as u64].g_code() == decl_code({v}, i) && {a}.view()[decl_code({v}, i) as u64].g_tag() == decl_tag({v}, i) '
+             '&& {a}.view()[decl_code({v}, i) as u64].g_children() == decl_children({v}, i) && {a}.view()[decl_code({v}, i) as u64].g_specs() == decl_specs({v}, i))')
+    ONLY = '(forall|c: u64| #![trigger {a}.view().contains_key(c)] {a}.view().contains_key(c) ==> exists|i: nat| #![trigger decl_code({v}, i)] i < {n} && decl_code({v}, i) == c)'
+    DISTINCT = '(forall|i: nat, j: nat| #![trigger decl_code({v}, i), decl_code({v}, j)] i < j < {n} ==> decl_code({v}, i) != decl_code({v}, j))'
     abs_.splice('parse', ret='res', ensures=[
         '[C02:abbrevs-inv] res matches Ok(a) ==> a.inv()',
+        f'[C02:abbrevs-table] res matches Ok(a) ==> exists|n: nat| #![trigger table_ends({O}, n)] table_ends({O}, n) && {HOLDS.format(v=O, n="n", a="a")} && {ONLY.format(v=O, n="n", a="a")}',
+        f'[C02:abbrevs-dup-rejected] res matches Ok(a) ==> exists|n: nat| #![trigger table_ends({O}, n)] table_ends({O}, n) && {DISTINCT.format(v=O, n="n")}',
         FRAME],
-        loops={0: f'invariant abbrevs.inv(), within({O}, input.rv()),\n decreases input.rv().len'})
+        before=[('while let', 'let ghost mut verif_n: nat = 0;'),
+                ('let code = abbrev.code;', f'proof {{ let w0 = advanced({O}, decl_start({O}, verif_n) as nat); let p1 = w0.leb_len(0) as int; let p2 = p1 + w0.leb_len(p1); lemma_aspecs_shift({O}, w0, p2 + 1); }}'),
+                ],
+        after=[('return Err(Error::DuplicateAbbreviationCode(code));\n            }', 'proof { verif_n = verif_n + 1; }')],
+        loops={0: f'invariant_except_break abbrevs.inv(), within({O}, input.rv()), input.rv().start - {O}.start == decl_start({O}, verif_n), '
+                  f'{HOLDS.format(v=O, n="verif_n", a="abbrevs")}, {ONLY.format(v=O, n="verif_n", a="abbrevs")}, {DISTINCT.format(v=O, n="verif_n")},\n'
+                  f' ensures abbrevs.inv(), within({O}, input.rv()), table_ends({O}, verif_n), {HOLDS.format(v=O, n="verif_n", a="abbrevs")}, {ONLY.format(v=O, n="verif_n", a="abbrevs")}, {DISTINCT.format(v=O, n="verif_n")},\n'
+                  ' decreases input.rv().len'})
     sk.add('read::abbrev', abs_)
     return sk
 
@@ -455,6 +541,7 @@ use crate::read::{Abbreviation, Abbreviations, AttributeSpecification};"""
     de.splice('tag', ret='res', ensures=['[C02:die-accessor] res == self.tag'])
     de.splice('has_children', ret='res', ensures=['[C02:die-accessor] res == self.has_children'])
     de.splice('attrs', ret='res', ensures=['[C02:die-accessor] res@ == self.attrs@'])
+    de.own(['C01', 'C02', 'C20'], fn='set_null')
     de.splice('sibling', ret='res', ensures=['[C02:sibling-forward] res matches Some(o) ==> o.0 > self.offset.0'])
     sk.add('read::unit', de)
 
@@ -489,7 +576,7 @@ use crate::read::{Abbreviation, Abbreviations, AttributeSpecification};"""
         &&& nonnull == (code != 0)
         &&& !nonnull ==> e.tag.0 == 0 && !e.has_children && e.attrs@.len() == 0 && fd == d - 1 && adv(iv, fv, iv.leb_len(0))
         &&& nonnull ==> ab.view().contains_key(code as u64) && ({ let a = ab.view()[code as u64];
-                e.tag.0 == a.g_tag() && e.has_children == (a.g_children() == 0x01) && e.attrs@.len() == a.g_attrs().len()
+                e.tag.0 == a.g_tag() && e.tag.0 != 0 && e.has_children == (a.g_children() == 0x01) && e.attrs@.len() == a.g_attrs().len()
                 && fd == d + (if e.has_children { 1int } else { 0int }) })
     }
     /// everything except input and depth
@@ -499,7 +586,11 @@ use crate::read::{Abbreviation, Abbreviations, AttributeSpecification};"""
     OS, FS = 'old(self)', 'final(self)'
     OI, FI = 'old(self).g_input()', 'final(self).g_input()'
     CODE = f'{OI}.uleb(0)'
-    er.splice('new', ret='res', requires=['abbreviations.inv()', 'input.rv().len <= isize::MAX', 'offset.0 + input.rv().len <= usize::MAX'], ensures=[
+    # NOTE (finding F-units-1): the doc comment of this public constructor says "`offset` may be any value", so there is no
+    # precondition relating `offset` to `input.len()`; the overflow obligation of `offset.0 + input.len()` therefore FAILS on the
+    # pinned tree (native reproducer native/src/bin/f_units_1.rs).  The two preconditions below are the table's representation
+    # invariant and LENFITS-ISIZE (a reader never holds more than isize::MAX bytes: the depth counter changes by one per byte).
+    er.splice('new', ret='res', requires=['abbreviations.inv()', 'input.rv().len <= isize::MAX'], ensures=[
         '[C02:raw-new] res.inv() && res.g_input() == input.rv() && res.g_encoding() == encoding && res.g_abbrevs() == *abbreviations && res.g_depth() == 0 && res.pos() == offset.0'])
     er.splice('empty', ensures=[f'{FI}.len == 0 && {FI}.root == {OI}.root && {FI}.be == {OI}.be && {FS}.same_unit({OS}) && {FS}.g_depth() == {OS}.g_depth()'])
     er.splice('is_empty', ret='res', ensures=['[C02:raw-is-empty] res == (self.g_input().len == 0)'])
@@ -513,7 +604,7 @@ use crate::read::{Abbreviation, Abbreviations, AttributeSpecification};"""
     er.splice('read_abbreviation', ret='res', requires=[f'[C02:raw-inv] {OS}.inv()'], canary=True, ensures=[
         f'[C02:raw-inv] {FS}.inv() && {FS}.same_unit({OS})',
         f'[C02:depth-null] res matches Ok(None) ==> {CODE} == 0 && {FS}.g_depth() == {OS}.g_depth() - 1 && adv({OI}, {FI}, {OI}.leb_len(0))',
-        f'[C02:abbrev-for-code] res matches Ok(Some(a)) ==> {CODE} != 0 && {OS}.g_abbrevs().view().contains_key({CODE} as u64) && *a == {OS}.g_abbrevs().view()[{CODE} as u64] && a.g_code() == {CODE} && a.wf() && adv({OI}, {FI}, {OI}.leb_len(0))',
+        f'[C02:abbrev-for-code] res matches Ok(Some(a)) ==> {CODE} != 0 && {OS}.g_abbrevs().view().contains_key({CODE} as u64) && *a == {OS}.g_abbrevs().view()[{CODE} as u64] && a.g_code() == {CODE} && a.wf() && a.g_tag() != 0 && adv({OI}, {FI}, {OI}.leb_len(0))',
         f'[C02:depth-children] res matches Ok(Some(a)) ==> {FS}.g_depth() == {OS}.g_depth() + (if a.g_children() == 0x01 {{ 1int }} else {{ 0int }})',
         f'[C02:depth-err] res is Err ==> {FS}.g_depth() == {OS}.g_depth()',
         f'[C01:frame] within({OI}, {FI})',
@@ -543,6 +634,8 @@ use crate::read::{Abbreviation, Abbreviations, AttributeSpecification};"""
         f'[C02:entry-step] res matches Ok(b) ==> Self::die_step({OI}, {OS}.g_depth(), {OS}.g_end(), {OS}.g_abbrevs(), {FI}, {FS}.g_depth(), *final(entry), b)',
         f'[C01:frame] within({OI}, {FI})',
         f'[C01:progress] res is Ok ==> {FI}.len < {OI}.len'])
+    for fn in ['read_attributes', 'read_entry']:
+        er.own(['C01', 'C02', 'C20'], fn=fn)
     sk.add('read::unit', er)
     populate_cursor(ctx, sk, un)
     return sk
@@ -607,6 +700,92 @@ def populate_cursor(ctx, sk, un):
         f'[C01:frame] res is Ok ==> within({OI}, {FI})'],
         loops={0: f'invariant self.inv(), self.g_raw().same_unit(&{OR}), within({OI}, self.g_raw().g_input()), !{OS}.cur_is_null(), current_depth == {OS}.g_cur().depth,\n decreases self.g_raw().g_input().len'})
     sk.add('read::unit', ec)
+    populate_tree(ctx, sk, un)
+
+    # ---------------------------------------------------------------- UnitHeader -> cursor (start of unit / positioned read)
+    uc = un.item(r'^impl<R, Offset> UnitHeader<R, Offset>\s*where\s*R: Reader<Offset = Offset>,\s*Offset: ReaderOffset,\s*\{\s*pub fn section', label='UnitHeader(entries)')
+    uc.keep_only(['entries', 'entries_at_offset'])
+    offset_usize(uc)
+    uc.custom('R-CLONE', 'self.entries_buf.clone()', 'reader_clone(&self.entries_buf)')
+    uc.clean()
+    uc.own(['C01', 'C02'])
+    PRE = ['[C02:hdr-wf] self.wf()', '[C02:abbrevs-inv] abbreviations.inv()', 'self.g_buf().len <= isize::MAX']
+    uc.splice('entries', ret='res', requires=PRE, canary=True, ensures=[
+        '[C02:entries-start] res.inv() && res.cur_is_null() && res.g_raw().g_input() == self.g_buf() && res.g_raw().g_depth() == 0 && res.g_raw().pos() == self.hdr_size() '
+        '&& res.g_raw().g_abbrevs() == *abbreviations && res.g_raw().g_encoding() == self.g_encoding()'])
+    uc.splice('entries_at_offset', ret='res', requires=PRE, canary=True, ensures=[
+        '[C02:entries-at-offset] res matches Ok(c) ==> self.in_bounds(offset.0 as nat) && c.inv() && c.cur_is_null() && adv(self.g_buf(), c.g_raw().g_input(), (offset.0 - self.hdr_size()) as nat) '
+        '&& c.g_raw().g_depth() == 0 && c.g_raw().pos() == offset.0 && c.g_raw().g_abbrevs() == *abbreviations && c.g_raw().g_encoding() == self.g_encoding()',
+        '[C02:entries-at-offset] res is Err <==> !self.in_bounds(offset.0 as nat)'])
+    sk.add('read::unit', uc)
+    return sk
+
+
+def populate_tree(ctx, sk, un):
+    # ---------------------------------------------------------------- EntriesTree / EntriesTreeNode / EntriesTreeIter
+    sk.add('read::unit', un.item(r"^pub struct EntriesTree<'abbrev, R>").custom('R-ATTR', '#[derive(Clone, Debug)]', '#[derive(Clone)]').clean(rejrec=['R']))
+    et = un.item(r"^impl<'abbrev, R: Reader> EntriesTree<'abbrev, R> \{", label='EntriesTree')
+    et.custom('R-CLONE', 'root.clone()', 'reader_clone(&root)')
+    et.custom('R-CLONE', 'self.root.clone()', 'reader_clone(&self.root)')
+    et.clean()
+    et.own(['C01', 'C02'])
+    et.insert_members("""    pub closed spec fn g_root(&self) -> RView { self.root.rv() }
+    pub closed spec fn g_raw(&self) -> EntriesRaw<'abbrev, R> { self.input }
+    pub closed spec fn g_entry(&self) -> DebuggingInformationEntry<R> { self.entry }
+    /// invariant: as for the cursor, plus: the root view ends where the raw reader's input ends (same unit), so re-rooting keeps the offset bookkeeping valid
+    pub open spec fn inv(&self) -> bool {
+        &&& self.g_raw().inv()
+        &&& isize::MIN + self.g_raw().g_input().len <= self.g_entry().depth && self.g_entry().depth + self.g_raw().g_input().len <= isize::MAX
+        &&& self.g_root().len <= self.g_raw().g_end() && self.g_root().len <= isize::MAX
+        // coherence of the current entry with the reader: a null entry has no children; right after an entry with children the next depth is one more
+        &&& (self.g_entry().tag.0 == 0 ==> !self.g_entry().has_children)
+        &&& (self.g_entry().has_children ==> self.g_raw().g_depth() == self.g_entry().depth + 1)
+    }""")
+    OS, FS = 'old(self)', 'final(self)'
+    OR, FR = 'old(self).g_raw()', 'final(self).g_raw()'
+    OI, FI = 'old(self).g_raw().g_input()', 'final(self).g_raw().g_input()'
+    STEP = "EntriesRaw::<'abbrev, R>::die_step"
+    et.splice('new', ret='res', requires=['abbreviations.inv()', 'root.rv().len <= isize::MAX', 'offset.0 + root.rv().len <= usize::MAX'], ensures=[
+        '[C02:tree-new] res.inv() && res.g_root() == root.rv() && res.g_raw().g_input() == root.rv() && res.g_raw().g_encoding() == encoding && res.g_raw().g_abbrevs() == *abbreviations '
+        '&& res.g_raw().g_depth() == 0 && res.g_raw().pos() == offset.0 && res.g_entry().tag.0 == 0'])
+    et.splice('root', ret='res', requires=[f'[C02:tree-inv] {OS}.inv()'], canary=True, ensures=[
+        f'[C20:reroot] res matches Ok(n) ==> {STEP}({OS}.g_root(), 0, {OR}.g_end(), {OR}.g_abbrevs(), n.g_tree().g_raw().g_input(), n.g_tree().g_raw().g_depth(), n.g_tree().g_entry(), true)',
+        f'[C20:reroot] res matches Ok(n) ==> n.g_tree().g_entry().offset.0 == {OR}.g_end() - {OS}.g_root().len && n.g_tree().g_entry().depth == 0 && n.g_depth() == 1',
+        f'[C02:tree-inv] res matches Ok(n) ==> n.g_tree().inv() && n.g_tree().g_root() == {OS}.g_root() && n.g_tree().g_raw().same_unit(&{OR})',
+        f'[C02:tree-inv] res is Err ==> {FS}.g_root() == {OS}.g_root() && {FR}.same_unit(&{OR})'])
+    et.own(['C01', 'C02', 'C20'], fn='root')
+    et.splice('next', ret='res', requires=[f'[C02:tree-inv] {OS}.inv()', f'[C02:tree-next-pre] {OS}.g_entry().depth < depth ==> {OS}.g_entry().depth + 1 == depth'], canary=True, ensures=[
+        f'[C02:tree-inv] {FS}.inv() && {FS}.g_root() == {OS}.g_root() && {FR}.same_unit(&{OR})',
+        f'[C02:tree-step] res matches Ok(true) ==> {FS}.g_entry().tag.0 != 0 && {FS}.g_entry().depth == depth && {FS}.g_entry().depth < isize::MAX && {FS}.g_entry().offset.0 >= {OR}.pos() && {FI}.len < {OI}.len',
+        f'[C02:tree-first-child] res matches Ok(true) && {OS}.g_entry().depth < depth ==> {STEP}({OI}, {OR}.g_depth(), {OR}.g_end(), {OR}.g_abbrevs(), {FI}, {FR}.g_depth(), {FS}.g_entry(), true)',
+        f'[C02:tree-no-children] {OS}.g_entry().depth < depth && !{OS}.g_entry().has_children ==> (res matches Ok(false)) && {FI} == {OI} && {FS}.g_entry() == {OS}.g_entry() && {FR}.g_depth() == {OR}.g_depth()',
+        f'[C02:tree-end] res matches Ok(false) ==> ({OS}.g_entry().depth < depth && !{OS}.g_entry().has_children) || {FS}.g_entry().tag.0 == 0',
+        f'[C01:iter-err-empties] res is Err ==> {FI}.len == 0 && {FS}.g_entry().tag.0 == 0',
+        f'[C01:frame] res is Ok ==> within({OI}, {FI})'],
+        loops={0: f'invariant self.inv(), self.g_root() == {OS}.g_root(), self.g_raw().same_unit(&{OR}), within({OI}, self.g_raw().g_input()), {OS}.g_entry().depth >= depth, '
+                  f'self.g_raw().g_input().len < {OI}.len || self.g_entry() == {OS}.g_entry(),\n decreases self.g_raw().g_input().len'})
+    sk.add('read::unit', et)
+    sk.add('read::unit', un.item(r"^pub struct EntriesTreeNode<'abbrev, 'tree, R: Reader>").custom('R-ATTR', '#[derive(Debug)]', '').clean(rejrec=['R']))
+    tn = un.item(r"^impl<'abbrev, 'tree, R: Reader> EntriesTreeNode<'abbrev, 'tree, R> \{", label='EntriesTreeNode').clean().own(['C01', 'C02'])
+    tn.insert_members("""    pub closed spec fn g_tree(&self) -> EntriesTree<'abbrev, R> { *self.tree }
+    pub closed spec fn g_depth(&self) -> isize { self.depth }""")
+    tn.splice('new', ret='res', requires=['[C02:node-nonnull] old(tree).g_entry().tag.0 != 0'], ensures=['res.g_tree() == *old(tree) && res.g_depth() == depth'])
+    tn.splice('entry', ret='res', ensures=['[C02:node-entry] *res == self.g_tree().g_entry()'])
+    tn.splice('children', ret='res', ensures=['[C02:node-children] res.g_tree() == self.g_tree() && res.g_depth() == self.g_depth() && !res.g_empty()'])
+    sk.add('read::unit', tn)
+    sk.add('read::unit', un.item(r"^pub struct EntriesTreeIter<'abbrev, 'tree, R: Reader>").custom('R-ATTR', '#[derive(Debug)]', '').clean(rejrec=['R']))
+    ti = un.item(r"^impl<'abbrev, 'tree, R: Reader> EntriesTreeIter<'abbrev, 'tree, R> \{", label='EntriesTreeIter').clean().own(['C01', 'C02'])
+    ti.insert_members("""    pub closed spec fn g_tree(&self) -> EntriesTree<'abbrev, R> { *self.tree }
+    pub closed spec fn g_depth(&self) -> isize { self.depth }
+    pub closed spec fn g_empty(&self) -> bool { self.empty }""")
+    ti.splice('new', ret='res', ensures=['res.g_tree() == *old(tree) && res.g_depth() == depth && !res.g_empty()'])
+    OT, FT = 'old(self).g_tree()', 'final(self).g_tree()'
+    ti.splice('next', ret='res', requires=[f'[C02:tree-inv] {OT}.inv()', f'[C02:tree-next-pre] {OT}.g_entry().depth < old(self).g_depth() ==> {OT}.g_entry().depth + 1 == old(self).g_depth()'], canary=True, ensures=[
+        f'[C01:iter-end] old(self).g_empty() ==> (res matches Ok(None))',
+        f'[C02:tree-iter-step] res matches Ok(Some(n)) ==> n.g_depth() == old(self).g_depth() + 1 && n.g_tree().inv() && n.g_tree().g_entry().tag.0 != 0 && n.g_tree().g_entry().depth == old(self).g_depth() '
+        f'&& n.g_tree().g_raw().g_input().len < {OT}.g_raw().g_input().len && n.g_tree().g_root() == {OT}.g_root()',
+        f'[C02:tree-iter-end] res matches Ok(None) ==> final(self).g_empty() && final(self).g_depth() == old(self).g_depth()'])
+    sk.add('read::unit', ti)
     return sk
 
 
